@@ -94,6 +94,10 @@ class Check:
     def add(self, ex):
         if not getattr(self, "script_sample", None) and 3 < len(ex.lines) < 60:
             self.script_sample = dict(execution=ex.name, build=ex.variant, script=[l[:160] for l in ex.lines[:25]])
+        import random
+        import zlib
+        if not ex.name.endswith(("~p", "~u")) and ex.variant not in ("dbg", "uchar_dbg"):
+            ex.lines = gen.vary_configuration(ex.lines, random.Random(zlib.crc32(("cfg/%d/%s" % (self.seed, ex.name)).encode())))
         self.execs.append(ex)
         # Every check also runs a sample of its executions (a) with model-level no-ops woven in - the dependency set
         # injected again, the mask changed and restored, unrelated seeds decoded / created / freed, the allocator
